@@ -249,6 +249,14 @@ class Eval(object):
             if e['f'] in self.arrays:
                 return ('array', e['f'])
             return ('field', e['f'])
+        if k == 'mem':
+            # a member of an array element (through a subscript or a local reference bound to the element): its own cell
+            try:
+                b = self.lv(e['b'], fn, env)
+            except Refuse:
+                b = None
+            if isinstance(b, Elem):
+                return Elem(b.array + '.' + e['f'], b.index)
         if k == 'idx':
             b = self.lv(e['b'], fn, env)
             if not (isinstance(b, tuple) and b[0] == 'array'):
